@@ -435,9 +435,7 @@ func (rn *runner) compute(ctx context.Context) (interface{}, error) {
 						break
 					}
 				}
-				for i := 0; i < f.Arm; i++ {
-					spinSink++
-				}
+				spin(f.Arm)
 				atomic.AddInt32(&m.hits.ArmWrite, 1)
 				// the value was written when the run ended (see below); this is the notification
 				if a.strobe {
@@ -546,9 +544,7 @@ func (rn *runner) compute(ctx context.Context) (interface{}, error) {
 		atomic.AddInt32(&armActive, 1)
 		atomic.StoreInt32(&arm.state, 1)
 		// the notification needs a head start to land while the rerunner arms itself
-		for i := 0; i < armFire.ArmLate; i++ {
-			spinSink2++
-		}
+		spin(armFire.ArmLate)
 	}
 	return nil, nil
 }
@@ -570,7 +566,16 @@ var armEpoch int32
 // notification.
 var armActive int32
 
-var spinSink, spinSink2 int
+var spinSink uint64
+
+// spin idles for n iterations (no shared memory is touched until the end)
+func spin(n int) {
+	var x uint64
+	for i := 0; i < n; i++ {
+		x += uint64(i)
+	}
+	atomic.AddUint64(&spinSink, x)
+}
 
 var yieldState struct {
 	mu   sync.Mutex
